@@ -73,8 +73,26 @@ func GetCPUPlans(resourceInfo *types.NodeResourceInfo, originCPUMap types.CPUMap
 		numaCPUMap[numaNodeID][cpuID] = availableResource.CPUMap[cpuID]
 	}
 
-	// get cpu plan for each numa node
-	for numaNodeID, cpuMap := range numaCPUMap {
+	// get cpu plan for each numa node, in a fixed order: the numa nodes holding most of the
+	// old cpu cores first (affinity), then by ID. The caller may take the first plan only.
+	originPieces := map[string]int{}
+	for cpuID, pieces := range originCPUMap {
+		if numaNodeID, ok := resourceInfo.Capacity.NUMA[cpuID]; ok {
+			originPieces[numaNodeID] += pieces
+		}
+	}
+	numaNodeIDs := make([]string, 0, len(numaCPUMap))
+	for numaNodeID := range numaCPUMap {
+		numaNodeIDs = append(numaNodeIDs, numaNodeID)
+	}
+	sort.Slice(numaNodeIDs, func(i, j int) bool {
+		if originPieces[numaNodeIDs[i]] != originPieces[numaNodeIDs[j]] {
+			return originPieces[numaNodeIDs[i]] > originPieces[numaNodeIDs[j]]
+		}
+		return numaNodeIDs[i] < numaNodeIDs[j]
+	})
+	for _, numaNodeID := range numaNodeIDs {
+		cpuMap := numaCPUMap[numaNodeID]
 		// memory of a numa node is also part of the node's memory, which workloads without
 		// cpu binding use as well: a plan must fit in both
 		availableMemory := utils.Min(availableResource.NUMAMemory[numaNodeID], availableResource.Memory)
